@@ -48,7 +48,8 @@ type metricSchemaStore struct {
 
 	cache *expirable.LRU[metric.ID, *metric.Schema]
 
-	lock sync.RWMutex
+	lock    sync.RWMutex
+	flushes int64 // number of completed flushes(guarded by lock), a flush swaps the kv snapshot and purges the cache
 }
 
 // NewMetricSchemaStore creates a MetricSchemaStore instance.
@@ -72,37 +73,72 @@ func (s *metricSchemaStore) GetSchema(id metric.ID) (schema *metric.Schema, err 
 	if ok {
 		return schema, nil
 	}
+	s.lock.RLock()
+	flushes := s.flushes
+	s.lock.RUnlock()
 	schema, err = s.getSchemaFromKV(id)
 	if err != nil {
 		return nil, err
 	}
 	verifGate("schemastore.loaded")
 	if schema != nil {
-		s.cache.Add(id, schema)
+		// don't cache a schema loaded from an outdated snapshot(a flush completed meanwhile),
+		// else fields/tag keys persisted by that flush cannot be found until the cache entry expires.
+		s.lock.RLock()
+		if s.flushes == flushes {
+			s.cache.Add(id, schema)
+		}
+		s.lock.RUnlock()
 	}
 	return
 }
 
+// lockSchema returns the schema which new fields/tag keys of the metric must be added to, it is put into
+// the mutable store if it is not there yet. NOTE: returns with the write lock held if err is nil.
+func (s *metricSchemaStore) lockSchema(id metric.ID) (schema *metric.Schema, err error) {
+	key := uint32(id)
+	for {
+		s.lock.RLock()
+		flushes := s.flushes
+		s.lock.RUnlock()
+
+		schema, err = s.GetSchema(id)
+		if err != nil {
+			return nil, err
+		}
+		s.lock.Lock()
+		// other goroutine maybe put a schema into the mutable store after GetSchema of this goroutine, use it,
+		// else the field/tag key is added to a private schema and lost(different names get same id)
+		if exist, ok := s.mutable.Get(key); ok {
+			return exist, nil
+		}
+		if s.immutable != nil {
+			if exist, ok := s.immutable.Get(key); ok {
+				s.mutable.Put(key, exist)
+				return exist, nil
+			}
+		}
+		if s.flushes == flushes {
+			// no flush completed since the schema was loaded(cache/kv), it is complete
+			if schema == nil {
+				// create new schema
+				schema = &metric.Schema{}
+			}
+			s.mutable.Put(key, schema)
+			return schema, nil
+		}
+		// a flush completed meanwhile, the loaded schema may miss what that flush persisted, load again
+		s.lock.Unlock()
+	}
+}
+
 // genFieldID generates field id if field not exist.
 func (s *metricSchemaStore) genFieldID(id metric.ID, f field.Meta, limits *models.Limits) (fID field.ID, err error) {
-	schema, err := s.GetSchema(id)
+	schema, err := s.lockSchema(id)
 	if err != nil {
 		return 0, err
 	}
-	s.lock.Lock()
 	defer s.lock.Unlock()
-
-	if schema == nil {
-		// create new schema
-		schema = &metric.Schema{}
-	}
-	// put into schema if schema not exist under mutable store
-	s.mutable.PutIfNotExist(uint32(id), schema)
-	// use the schema of mutable store, other goroutine maybe put a new schema after GetSchema of this goroutine,
-	// else the field/tag key is added to a private schema and lost(different names get same id)
-	if exist, ok := s.mutable.Get(uint32(id)); ok {
-		schema = exist
-	}
 
 	fm, ok := schema.Fields.Find(f.Name)
 	if ok {
@@ -123,24 +159,11 @@ func (s *metricSchemaStore) genFieldID(id metric.ID, f field.Meta, limits *model
 func (s *metricSchemaStore) genTagKeyID(id metric.ID, tagKey []byte, limits *models.Limits,
 	createFn func() uint32,
 ) (tagKeyID tag.KeyID, err error) {
-	schema, err := s.GetSchema(id)
+	schema, err := s.lockSchema(id)
 	if err != nil {
 		return 0, err
 	}
-	s.lock.Lock()
 	defer s.lock.Unlock()
-
-	if schema == nil {
-		// create new schema
-		schema = &metric.Schema{}
-	}
-	// put into schema if schema not exist under mutable store
-	s.mutable.PutIfNotExist(uint32(id), schema)
-	// use the schema of mutable store, other goroutine maybe put a new schema after GetSchema of this goroutine,
-	// else the field/tag key is added to a private schema and lost(different names get same id)
-	if exist, ok := s.mutable.Get(uint32(id)); ok {
-		schema = exist
-	}
 
 	tm, ok := schema.TagKeys.Find(strutil.ByteSlice2String(tagKey))
 	if ok {
@@ -275,6 +298,7 @@ func (s *metricSchemaStore) Flush() error {
 	}
 	s.immutable = nil
 	s.cache.Purge()
+	s.flushes++
 	s.lock.Unlock()
 	return nil
 }
